@@ -640,6 +640,20 @@ func (b *BlockWise[C]) getValidUntil(sentRequest *pool.Message) time.Time {
 	return validUntil
 }
 
+// requestedBlock2 reports whether the request itself asked for block num of the response
+// (random access to a single block), in which case that block alone is the expected answer.
+func requestedBlock2(sentRequest *pool.Message, num int64) bool {
+	if sentRequest == nil {
+		return false
+	}
+	block, err := sentRequest.GetOptionUint32(message.Block2)
+	if err != nil {
+		return false
+	}
+	_, reqNum, _, err := DecodeBlockOption(block)
+	return err == nil && reqNum == num
+}
+
 func getSzx(szx, maxSzx SZX) SZX {
 	if szx > maxSzx {
 		return maxSzx
@@ -817,6 +831,11 @@ func (b *BlockWise[C]) processReceivedMessage(w *responsewriter.ResponseWriter[C
 			if blockType == message.Block1 && num > 0 {
 				// the last block of a request body without the preceding blocks
 				return errors.New("missing preceding blocks of the request body")
+			}
+			if blockType == message.Block2 && num > 0 && !requestedBlock2(sentRequest, num) {
+				// The last block of a response body whose preceding blocks are not held (any more), e.g. the
+				// reassembly entry expired in the middle of a slow transfer. It is not the whole body.
+				return errors.New("missing preceding blocks of the response body")
 			}
 			next(w, r)
 			return nil
